@@ -102,7 +102,7 @@ def build(ctx, n):
 
     mix = pipeline.workload_mix(ctx)
     cand = [(inp, r) for inp, r in zip(mix["inputs"], mix["out"] or [])
-            if r.get("solved") and r.get("solved_by") in ("input-balanced", "rule-based") and len(inp) < 400]
+            if r.get("solved") and r.get("solved_by") in ("input-balanced", "rule-based") and pipeline.is_small(inp, 60)]
     rng = ctx.rng
     rng.shuffle(cand)
     base = [remove_atom_mapping(inp) for inp, _ in cand[:n]]
